@@ -15,7 +15,7 @@ has no "panic" value, so "never panics" cannot be stated about the model directl
 Rust load path (census of DESIGN.md §5 C15), the fact about the model that makes the site unreachable —
 each fact is about the same sub-parser whose Rust twin guards the site.  Two sites of the census were
 *live* and are fixed in the implementation: the unchecked `Decimal` `*`/`sum()` (F6) and
-`expect("IE: synthetic parent is invalid")` in `build_account_tree` (F18, found by this check; DESIGN.md
+`expect("IE: synthetic parent is invalid")` in `build_account_tree` (F21, found by this check; DESIGN.md
 listed it as dead); their regression witnesses are at the end of this file.
 
 **Fail-stop.**  `whole_input`: an accepted text is exactly leading blank lines followed by the texts of
@@ -166,7 +166,7 @@ theorem repeat_assert_dead (cfg : Time.TsCfg) (s : List Char) :
    fun x => repeatTillG_stall_irrelevant _ x _ _ (parseTxn_cons cfg) _ s (by omega)⟩
 
 /-- **C15 `no_panic`.**  The model has no panic outcome; this theorem is the conjunction of the facts that
-    make every panic site of the Rust load path unreachable (the two live ones, F6 and F18, are fixed in the
+    make every panic site of the Rust load path unreachable (the two live ones, F6 and F21, are fixed in the
     implementation and modelled as errors):
     1. `handle_time`: `assert!(ns_len <= 9)`, `i32::from_str`, `i32` product — `frac_fits`;
     2. `try_map(i8::from_str)`, `try_map(i16::from_str)`, `try_map(i32::from_str)` on 2/4 digits;
@@ -565,13 +565,13 @@ theorem F6_sum_overflow_is_error :
       "2024-01-01\n a 79228162514264337593543950335\n b 79228162514264337593543950335\n c\n".toList) = .err := by
   decide
 
-/-- **F18 regression witness**: `a :b` passes `AccountTreeNode::from` (components are validated after
+/-- **F21 regression witness**: `a :b` passes `AccountTreeNode::from` (components are validated after
     trimming) but its parent `a ` does not — the site `expect("IE: synthetic parent is invalid")` was
     live; with the fix the journal is an ordinary error -/
-theorem F18_parent_of_valid_name_invalid :
+theorem F21_parent_of_valid_name_invalid :
     atnOk ["a ".toList, "b".toList] = true ∧ atnOk ["a ".toList] = false := by decide
 
-theorem F18_is_error : parseJournal utc "2024-01-01\n a :b  1\n c\n".toList = none := by decide
+theorem F21_is_error : parseJournal utc "2024-01-01\n a :b  1\n c\n".toList = none := by decide
 
 end C15
 end Tackler
